@@ -25,4 +25,5 @@ wait
 go tool covdata textfmt -i=/var/tmp/verif-covdata -o /var/tmp/verif-cov.txt
 python3 /verif/tools/pool_coverage.py /var/tmp/verif-cov.txt $S/gonum ${2:-gonum.org/v1/gonum/mat}
 cp /var/tmp/verif-cov.txt /var/tmp/verif-cov-last.txt
+if [ -n "${KEEP_SRC:-}" ]; then rm -rf /var/tmp/verif-cov-src; mkdir -p /var/tmp/verif-cov-src; cp -r $S/gonum/$KEEP_SRC /var/tmp/verif-cov-src/; fi   # rewritten sources the line numbers refer to
 rm -rf $S /var/tmp/verif-covdata /var/tmp/verif-cov.txt
